@@ -845,6 +845,16 @@ var ErrC08 = fmt.Errorf("delete of a row referenced through a cascade update for
 // then rewrites every row whose foreign key value is empty (= "no reference").
 var ErrEmptyKeyCascade = fmt.Errorf("update of an empty key that is the target of a cascade update foreign key")
 
+// ErrSelfRowCascade: a row that references ITSELF through a cascading foreign key is updated
+// or deleted (the cascade would rewrite / delete the very row being processed). Avoided (C08).
+var ErrSelfRowCascade = fmt.Errorf("cascade onto the row being updated or deleted itself")
+
+// IsAvoid reports whether err marks an operation the generators do not issue.
+func IsAvoid(err error) bool {
+	return err == ErrC08 || err == ErrEmptyKeyCascade || err == ErrSelfRowCascade ||
+		(err != nil && strings.Contains(err.Error(), "cascade too deep"))
+}
+
 func (t *Table) findByKey(key []Val) int {
 	ki := t.FirstKey()
 	if ki < 0 {
@@ -963,8 +973,8 @@ func (m *Model) delete(t *Table, ri int, depth int) error {
 			if len(rows) == 0 {
 				continue
 			}
-			if ref.Table == t.Name && len(rows) == 1 && rows[0] == ri && ref.Mode != Block {
-				continue // only references itself
+			if ref.Table == t.Name && slices.Contains(rows, ri) && ref.Mode != Block {
+				return ErrSelfRowCascade
 			}
 			switch ref.Mode {
 			case Block:
@@ -1070,6 +1080,9 @@ func (m *Model) update(t *Table, ri int, newrow Row, block bool, depth int) erro
 			}
 			s, rws := m.referencing(ref, ch.old)
 			for _, si := range rws {
+				if s == t && si == ri {
+					return ErrSelfRowCascade
+				}
 				nr := slices.Clone(s.Rows[si])
 				for len(nr) < len(s.Cols) {
 					nr = append(nr, Val{})
